@@ -553,7 +553,7 @@ Definition bytes_sexp (b : bytes) : sexp := SStr b.
 Definition was_cut {D} (r : r_schema D) : bool :=
   existsb (fun x => match ref_leaf x with None => true | Some _ => false end) (all_refs r).
 
-Definition check_intro (l : list sexp) : sexp :=
+Definition check_intro_one (l : list sexp) : sexp :=
   match field1 "schema" l, field1 "features" l, field1 "data" l, field1 "errors" l with
   | Some sc, Some fs, Some data, Some errs =>
       match dec_schema sc, dec_names fs, dec_data data, as_nat errs with
@@ -604,6 +604,70 @@ Definition check_intro (l : list sexp) : sexp :=
       | _, _, _, None => v_bad "decode-errors"
       end
   | _, _, _, _ => v_bad "fields"
+  end.
+
+(** ** histories: several introspection requests on ONE schema value
+
+    A case may carry further requests [(then (features F) (data D) (errors n))] made, in this
+    order, on the same *schema.Schema after the first one.  The model of a response is a function
+    of the definition and the request's features alone, so every step is judged exactly like a
+    first request: anything the implementation remembers from an earlier request (a cache keyed
+    without the features, say) shows as an ordinary oracle failure of a later step. *)
+Fixpoint thens (l : list sexp) : list (list sexp) :=
+  match l with
+  | [] => []
+  | x :: r => match tagged "then" x with Some a => a :: thens r | None => thens r end
+  end.
+
+Fixpoint same_names (a b : list name) : bool :=
+  match a, b with
+  | [], [] => true
+  | x :: a', y :: b' => bytes_eqb x y && same_names a' b'
+  | _, _ => false
+  end.
+
+Definition benign (v : sexp) : bool :=
+  match v with
+  | SL (SSym t :: rest) =>
+      String.eqb t "ok" ||
+      (String.eqb t "oracle-fail" && match rest with SSym k :: _ => String.eqb k "chain-beyond-query-depth" | _ => false end)
+  | _ => false
+  end.
+
+Definition add_classes (cs : list string) (v : sexp) : sexp :=
+  match v with
+  | SL (SSym t :: rest) => if String.eqb t "ok" then SL (SSym t :: rest ++ map SSym cs) else v
+  | _ => v
+  end.
+
+Definition check_intro (l : list sexp) : sexp :=
+  let first := check_intro_one l in
+  match field "schema" l, thens l with
+  | Some sc, (_ :: _) as steps =>
+      let later := map (fun t => check_intro_one (SL (SSym "schema" :: sc) :: t)) steps in
+      match find (fun v => negb (benign v)) (first :: later) with
+      | Some v => v
+      | None =>
+          (* did the requests differ in which types they may see? *)
+          let differ :=
+            match field1 "schema" l, field1 "features" l with
+            | Some s0, Some f0 =>
+                match dec_schema s0, dec_names f0 with
+                | Some (Sc, _), Some F0 =>
+                    existsb (fun t => match field1 "features" t with
+                                      | Some f => match dec_names f with
+                                                  | Some F => negb (same_names (listed Sc F) (listed Sc F0))
+                                                  | None => false
+                                                  end
+                                      | None => false
+                                      end) steps
+                | _, _ => false
+                end
+            | _, _ => false
+            end in
+          add_classes ("history" :: (if differ then ["history-types-differ"] else [])) first
+      end
+  | _, _ => first
   end.
 
 (** ** definitions compared structurally; the answer names the first difference *)
@@ -759,7 +823,25 @@ Definition check_rebuild (l : list sexp) : sexp :=
                   end end
               end
             else None in
-          match oracle with
+          (* the rebuilt schema value asked again, under other feature sets: nothing in it is gated
+             and nothing may be remembered, so every response is the first one *)
+          let rhist :=
+            match field "rebuilt-history" l with
+            | Some (d0 :: ds) =>
+                match dec_data d0 with
+                | Some (Some r0) =>
+                    if forallb (fun d => match dec_data d with
+                                         | Some (Some r1) =>
+                                             match schema_diff (fun a b => opt_eqb bytes_eqb a b) (normalise r0) (normalise r1) with
+                                             | None => true | Some _ => false end
+                                         | _ => false
+                                         end) ds
+                    then None else Some "rebuilt-history-differs"
+                | _ => Some "rebuilt-history-differs"
+                end
+            | _ => None
+            end in
+          match oracle <|> rhist with
           | Some key => v_oracle_fail key []
           | None =>
               (* 2. model of GetSchemaDefinition on the observed JSON vs the real one *)
